@@ -462,6 +462,23 @@ def generate(ck):
 # ------------------------------------------------------------------------------------------
 # the fault-injecting megacomplex and the schemes
 # ------------------------------------------------------------------------------------------
+class PluginDefinedError(Exception):
+    """an exception class of its own, as a megacomplex plugin may define one (derives from Exception directly)"""
+
+
+def _exc_classes():
+    from glotaran.parameter.parameters import ParameterNotFoundException
+    return {"RuntimeError": RuntimeError, "ValueError": ValueError, "ZeroDivisionError": ZeroDivisionError,
+            "FloatingPointError": FloatingPointError, "KeyError": KeyError, "IndexError": IndexError, "TypeError": TypeError,
+            "AttributeError": AttributeError, "NotImplementedError": NotImplementedError, "OSError": OSError,
+            "AssertionError": AssertionError, "StopIteration": StopIteration, "LinAlgError": np.linalg.LinAlgError,
+            "ParameterNotFoundException": ParameterNotFoundException, "PluginDefinedError": PluginDefinedError}
+
+
+EXC_CLASSES = _exc_classes()
+EXC_NAMES = sorted(EXC_CLASSES)
+
+
 class Injector:
     """global state of the test megacomplex: counts calculate_matrix calls and injects the fault"""
 
@@ -487,7 +504,7 @@ class Injector:
             return None
         self.hit += 1
         if f["kind"] in ("raise", "persistent"):
-            e = RuntimeError(f"{FAULT_PREFIX}{self.n}")
+            e = EXC_CLASSES[f.get("exc", "RuntimeError")](f"{FAULT_PREFIX}{self.n}")
             if self.exc is None:
                 self.exc = e
             raise e
@@ -1549,6 +1566,13 @@ def run_case(ck, case, batch: Batch, count=True):
             ck.count("outcome:" + (type(o.exc).__name__ if o.exc is not None else "Result"))
         return o
     free = fault_free(ck, case["scheme"], case["method"], batch)
+    if case.get("fault") is not None and case["fault"]["at"] > len(free.call_sweep):
+        # a recorded fault position that the fault-free run of this tree never reaches (the number of model evaluations
+        # of a run changed): nothing can be injected there; not a verdict
+        ck.count("fault-position-beyond-the-fault-free-run")
+        ck.diagnostic("recorded fault position beyond the calculate_matrix calls of the fault-free run",
+                      {"case": case, "calls": len(free.call_sweep)})
+        return None
     o = execute(case)
     ids = Ids(free.x0)
     schedule_of(free, ids)            # ids of the fault-free vectors first (stable numbering)
